@@ -41,7 +41,7 @@ CLAIMED["C05"] = ("5/C05",
    "SSA origin-term rules incl. limit-on-returned-value (L), phi-edge case rules, sibling agreement")
 
 CLAIMED["C19"] = ("5/C19",
-   "Syntax-tree analyses over the type-checked workspace decide: (X-det) every map range in state-machine code has an order-independent body or is collect-then-sort, and no wall-clock time (except feeding telemetry/logging), randomness, environment read, goroutine or select occurs there, each exception being one named construct with a reason; (X-gen) every field of each of the 18 module GenesisStates is consumed by InitGenesis and produced by ExportGenesis, and InitGenesis does not overwrite imported fields except nil/zero-defaulting; (X-mem) every write to in-memory keeper state is wiring, a rebuild from the store, or a self-validating cache. 4 recorded known findings (poolmanager caches, mint genesis overwrite). Also: side conditions of the pool-module cache (a hit charges the recorded gas of the read it replaces; filled only in finalize mode; invalidated by the only writer) and genesis rebuild of lockup accumulations keyed like the running chain.",
+   "Syntax-tree analyses over the type-checked workspace decide: (X-det) every map range in state-machine code has an order-independent body or is collect-then-sort, and no wall-clock time (except feeding telemetry/logging), randomness, environment read, goroutine or select occurs there, each exception being one named construct with a reason; (X-gen) every field of each of the 18 module GenesisStates is consumed by InitGenesis and produced by ExportGenesis, and InitGenesis does not overwrite imported fields except nil/zero-defaulting; (X-mem) every write to in-memory keeper state is wiring, a rebuild from the store, or a self-validating cache. 3 recorded known findings (poolmanager caches written during message execution); the mint genesis overwrite was repaired. (X-gen-loop) every call in an InitGenesis import loop runs on every iteration. Also: side conditions of the pool-module cache (a hit charges the recorded gas of the read it replaces; filled only in finalize mode; invalidated by the only writer) and genesis rebuild of lockup accumulations keyed like the running chain.",
    "Not covered: bit-identical app hash, losslessness of exported values beyond field coverage, nondeterminism inside dependencies. Trusted: go/types; scoping by package class.",
    "AST/type-based determinism lint, genesis field-coverage analysis, keeper-field write scan with call-graph classification")
 FIX_COMMITS.append("59282cb358")
